@@ -2,6 +2,7 @@
 
 from __future__ import annotations
 
+import json
 import hashlib
 import os
 import signal
@@ -77,6 +78,8 @@ CONFIGS: dict[str, dict[str, Any]] = {
                               "gradient": {"number_of_perturbations": 1, "perturbation_magnitudes": 0.02}},
     # path-valued options (output directory, redirected output)
     "slsqp-output-dir": {"optimizer": {"method": "slsqp", "options": {"maxiter": 2}}, "_paths": True},
+    # text outside ASCII in the configuration (directory and file names)
+    "slsqp-output-dir-non-ascii": {"optimizer": {"method": "slsqp", "options": {"maxiter": 2}}, "_paths": "non-ascii"},
     # option values that are NumPy scalars (as they come out of array arithmetic or YAML/NumPy based front-ends)
     "slsqp-numpy-scalar-options": {"optimizer": {"method": "slsqp", "options": {"maxiter": 3, "ftol": 1e-7}}, "_numpy_options": True},
     # one evaluation takes longer than any time-out inside the protocol (11 s; only slept in the external run)
@@ -136,8 +139,10 @@ def build(name: str, external: bool) -> tuple[dict[str, Any], AffineEvaluator, i
     if spec.get("_paths"):
         import tempfile
 
-        out_dir = tempfile.mkdtemp(prefix="c20-out---READY---")  # (the protocol's delimiter word inside a string value)
-        cfg["optimizer"] = {**cfg["optimizer"], "output_dir": out_dir, "stdout": "optimizer.out"}
+        # (the protocol's delimiter word, or text outside ASCII, inside a string value)
+        prefix, stdout = ("c20-Größe-結果-", "ausgabe-é.out") if spec["_paths"] == "non-ascii" else ("c20-out---READY---", "optimizer.out")
+        out_dir = tempfile.mkdtemp(prefix=prefix)
+        cfg["optimizer"] = {**cfg["optimizer"], "output_dir": out_dir, "stdout": stdout}
     if external:
         cfg["optimizer"] = {**cfg["optimizer"], "method": "external/" + cfg["optimizer"]["method"]}
     c_n = 1 if "nonlinear_constraints" in cfg else 0
@@ -175,6 +180,12 @@ def run_config(name: str, external: bool, kill: tuple[Any, ...] | None = None, r
             if not pids:
                 msg = "no optimizer child process found"
                 raise HarnessError(msg)
+            if len(kill) > 2 and str(kill[2]).startswith("self:"):
+                # the process that runs the optimization dies hard (no exception, no clean-up) in the middle of this evaluation
+                with open(str(kill[2])[5:] + ".tmp", "w") as fh:
+                    fh.write(json.dumps(pids))
+                os.rename(str(kill[2])[5:] + ".tmp", str(kill[2])[5:])
+                os.kill(os.getpid(), signal.SIGKILL)
             if len(kill) > 2 and kill[2] == "deferred":
                 # freeze the child now and let it die 0.6 s later, while the parent is waiting for its next request
                 import threading
@@ -262,7 +273,7 @@ def run_config(name: str, external: bool, kill: tuple[Any, ...] | None = None, r
             os.kill(pid, signal.SIGKILL)
         except OSError:
             pass
-    if isinstance(cfg["optimizer"].get("output_dir"), str) and "c20-out-" in cfg["optimizer"]["output_dir"]:
+    if isinstance(cfg["optimizer"].get("output_dir"), str) and os.path.basename(cfg["optimizer"]["output_dir"]).startswith("c20-"):
         import shutil
 
         shutil.rmtree(cfg["optimizer"]["output_dir"], ignore_errors=True)
@@ -294,6 +305,10 @@ def receive():
         buf += chunk
 requests = ["config", "initial_values"]
 for k, request in enumerate(requests, start=1):
+    if k == die_after and mode == "reader-gone":
+        os.close(rfd)  # the read end goes first, the request is still sent, then the process is gone
+        send(request)
+        os.kill(os.getpid(), signal.SIGKILL)
     send(request)
     if k == die_after and mode == "after-request":
         os.kill(os.getpid(), signal.SIGKILL)
@@ -308,7 +323,7 @@ def run_standin(case: dict[str, Any]) -> dict[str, Any]:
     """The optimizer process dies after k exchanged messages, before any evaluation (stand-in child that follows the protocol)."""
     import tempfile
 
-    cfg, ev, _ = build("slsqp", True)
+    cfg, ev, _ = build(case.get("config", "slsqp"), True)
     with tempfile.TemporaryDirectory() as tmp:
         script = os.path.join(tmp, "ropt_plugin_optimizer")
         with open(script, "w") as fh:
@@ -454,6 +469,52 @@ def run_daemonized(case: dict[str, Any]) -> dict[str, Any]:
     return {"calls": res["calls"][0], "code": res["codes"][0]}
 
 
+def run_parent_killed(case: dict[str, Any]) -> dict[str, Any]:
+    """The process that runs the step is killed (SIGKILL) during an evaluation: the optimizer process that worked for it has nobody
+    left to answer it, and must not stay behind (the liveness check of the optimizer process is what ends it)."""
+    import subprocess
+    import sys
+    import tempfile
+
+    def alive(pid: int) -> bool:
+        try:
+            with open(f"/proc/{pid}/stat") as fh:
+                stat = fh.read()
+        except OSError:
+            return False
+        return stat[stat.rindex(")") + 2:].split()[0] != "Z"
+
+    with tempfile.TemporaryDirectory() as tmp:
+        pid_file = os.path.join(tmp, "pids.json")
+        code = ("import sys\nfrom checks.c20_external import run_config\n"
+                "run_config(sys.argv[1], True, kill=(int(sys.argv[2]), 9, 'self:' + sys.argv[3]))\n")
+        proc = subprocess.Popen([sys.executable, "-c", code, case["config"], str(case["at"]), pid_file], start_new_session=True,  # noqa: S603
+                                stdout=subprocess.DEVNULL, stderr=subprocess.DEVNULL)
+        try:
+            proc.wait(timeout=120)
+        except subprocess.TimeoutExpired:
+            proc.kill()
+            msg = "the helper process did not end"
+            raise HarnessError(msg) from None
+        if not os.path.exists(pid_file):  # the run has fewer evaluations than this point
+            return {"calls": 0, "skipped": True}
+        check(proc.returncode == -signal.SIGKILL, "harness", f"helper ended with {proc.returncode}", case)
+        with open(pid_file) as fh:
+            pids = json.load(fh)
+    deadline = time.time() + 20
+    while any(alive(pid) for pid in pids) and time.time() < deadline:
+        time.sleep(0.1)
+    left = [pid for pid in pids if alive(pid)]
+    for pid in left:
+        try:
+            os.kill(pid, signal.SIGKILL)
+        except OSError:
+            pass
+    check(not left, "orphan-left-running", f"optimizer process {left} is still running 20 s after the process it worked for was killed "
+          f"during evaluation {case['at']}", case)
+    return {"calls": case["at"] + 1, "code": None}
+
+
 def run_unserialisable(case: dict[str, Any]) -> dict[str, Any]:
     """An option value that cannot be sent to the other process (a Generator as DE seed): an error is fine, a leftover process is not."""
     CONFIGS["_unserialisable"] = {"optimizer": {"method": "differential_evolution",
@@ -473,15 +534,67 @@ def run_unserialisable(case: dict[str, Any]) -> dict[str, Any]:
     return {"calls": ext["calls"], "code": ext["code"], "exc": type(ext["exc"]).__name__ if ext["exc"] else None}
 
 
+def run_framing(case: dict[str, Any]) -> dict[str, Any]:
+    """The message layer of the protocol on its own: whatever one end writes the other end reads, whole and unchanged.
+
+    Two communicator objects (the class both the parent and the optimizer process use) joined by a pair of FIFOs; one message
+    in flight at a time, as in the protocol. case["lengths"]: total number of bytes (JSON text + delimiter) of each message.
+    """
+    import tempfile
+    import threading
+    import time
+    from pathlib import Path
+
+    from ropt.plugins.optimizer.external import _JSONPipeCommunicator
+
+    overhead = len(json.dumps({"pad": ""})) + len(f"\n{_JSONPipeCommunicator.DELIMITER}\n")
+    received = 0
+    with tempfile.TemporaryDirectory(prefix="c20-framing-") as tmp:
+        one, two = Path(tmp) / "one", Path(tmp) / "two"
+        with _JSONPipeCommunicator(one, two) as reader, _JSONPipeCommunicator(two, one) as writer:
+            for i, length in enumerate(case["lengths"]):
+                message = {"pad": "".join(chr(97 + (i + j) % 23) for j in range(length - overhead))} if length >= overhead else "ok"
+                failure: list[BaseException] = []
+
+                def send(message: Any = message, failure: list[BaseException] = failure) -> None:  # noqa: ANN401
+                    try:
+                        deadline = time.monotonic() + 20
+                        while not writer.write(message):
+                            if time.monotonic() > deadline:
+                                msg = "write() kept returning False"
+                                raise TimeoutError(msg)  # noqa: TRY301
+                    except BaseException as exc:  # noqa: BLE001
+                        failure.append(exc)
+
+                thread = threading.Thread(target=send, daemon=True)
+                thread.start()
+                time.sleep(0.002)  # (lets the writer fill the pipe first: the first piece is then as large as it can be)
+                got = None
+                deadline = time.monotonic() + 20
+                while got is None and time.monotonic() < deadline and not failure:
+                    got = reader.read()
+                thread.join(timeout=20)
+                check(not failure, "framing-write-failed", f"message {i} ({length} bytes): write raised {failure[:1]!r}", case)
+                check(got is not None, "hang", f"message {i} of {length} bytes (JSON text + delimiter) was written completely but the "
+                      "reading end did not deliver it within 20 s", case)
+                check(got == message, "framing-corrupted", f"message {i} of {length} bytes arrived changed", case)
+                received += 1
+    return {"calls": received, "code": None}
+
+
 def run_case(case: dict[str, Any]) -> dict[str, Any]:
     name = case["config"]
     kind = case["kind"]
+    if kind == "framing":
+        return run_framing(case)
     if kind == "standin":
         return run_standin(case)
     if kind == "unserialisable":
         return run_unserialisable(case)
     if kind == "daemon":
         return run_daemonized(case)
+    if kind == "parent-killed":
+        return run_parent_killed(case)
     if kind == "child-error":
         return run_child_error(case)
     if kind == "equal":
@@ -541,12 +654,22 @@ def run_shard(item: dict[str, Any]) -> Collector:
 def shards(tier: str, seed: int) -> list[dict[str, Any]]:  # noqa: ARG001
     items: list[dict[str, Any]] = [{"kind": "equal", "config": name} for name in CONFIGS]
     for at in (1, 2):
-        for mode in ("after-request", "after-answer"):
+        for mode in ("after-request", "after-answer", "reader-gone"):
             items.extend({"kind": "standin", "config": "slsqp", "at": at, "mode": mode, "try": t} for t in range(2 if tier == "quick" else 6))
+            # (a large configuration: the parent needs much longer to prepare its answer than the optimizer process needs to die)
+            items.extend({"kind": "standin", "config": "lbfgsb-3000-variables", "at": at, "mode": mode, "try": t} for t in range(1 if tier == "quick" else 3))
     errors = [("empty", 0), ("empty", 1), ("assert", 2), ("message", 1), ("exit3", 1), ("finish", 2)] if tier == "quick" else [
         (e, k) for e in ("empty", "assert", "message", "exit3", "finish") for k in (0, 1, 2, 3)]
     items.extend({"kind": "child-error", "config": "failing-backend", "error": e, "after": k} for e, k in errors)
     items.append({"kind": "daemon", "config": "slsqp"})
+    items.extend({"kind": "parent-killed", "config": "slsqp", "at": at} for at in ((0, 2) if tier == "quick" else range(6)))
+    # message sizes around the capacity of a pipe (64 KiB) and its multiples, every single length in a window, and small ones
+    window = 16 if tier == "quick" else 48
+    for mult in ((1, 2) if tier == "quick" else (1, 2, 3, 4, 8)):
+        centre = 65536 * mult
+        lengths = list(range(centre - window, centre + window + 1))
+        for start in range(0, len(lengths), 11):
+            items.append({"kind": "framing", "config": f"pipe-capacity-x{mult}", "lengths": [40, *lengths[start:start + 11], 4096, 4097]})
     items.append({"kind": "unserialisable", "config": "de-generator-seed"})
     kill_cfgs = ["slsqp"] if tier == "quick" else ["slsqp", "slsqp-constrained-masked", "nelder-mead-budget", "de-vectorized"]
     points = range(3) if tier == "quick" else range(8)
